@@ -91,6 +91,30 @@ CLAIMED = {
    technique="contract-based deductive verification: VCs from the jaxpr of the real system-loss evaluate (objects built "
              "by the real constructors) over uninterpreted equations and networks, ring normalisation + z3",
    design_ref="DESIGN.md §5 C13", note=B_NOTE),
+ "C07": dict(
+   text="Four contracts on the real code of solve — initial carry (one warm-up draw, zero histories, optimizer.init or the "
+        "given state), one iteration (batch from the generators, value_and_grad of the loss, optimiser update, histories "
+        "written at index i only, tracked parameters after the update, generators advanced), the loop guard, and the "
+        "returned tuple as a projection of the final carry — discharged for uninterpreted loss / optimiser / generators "
+        "(and real optax.sgd), every i in [0, n_iter); the iteration rule then gives the reference-loop equality.",
+   technique="contract-based deductive verification: the real _one_iteration / break_fun closures are captured by replacing "
+             "jax.lax.while_loop with a recorder while tracing solve; VCs from their jaxprs, ring normalisation + z3",
+   design_ref="DESIGN.md §5 C07", note=B_NOTE + " The Hoare while rule (induction over iterations) is trusted, not re-proved; n_iter enumerated."),
+ "C18": dict(
+   text="last_non_nan' == ite(isnan(params'), last_non_nan, params') on the real _gradient_step, _check_nan_in_pytree == OR "
+        "of isnan over every leaf, guard stops on isnan(params), solve returns last_non_nan; invariant "
+        "~isnan(last) /\\ (~isnan(params) => last = params) and the exit lemma (first NaN: loop exits, returned parameters "
+        "are those held before the iteration, NaN-free) discharged by z3 over these contracts.",
+   technique="contract-based deductive verification: VCs from the jaxprs of the captured solve closures + z3 lemma over the contracts",
+   design_ref="DESIGN.md §5 C18", note=B_NOTE + " NaN propagation inside float arithmetic is not modelled (isnan is a predicate on params')."),
+ "C19": dict(
+   text="Step contract of solve with an uninterpreted validation module: invoked iff i mod call_every == 0 with the "
+        "post-update parameters, criterion stored at i (carried from i-1 otherwise), early_stop' = stop, best' = params' iff "
+        "improved; ValidationLoss.__call__: improved <=> v < best (strict), counter' = ite(improved, 0, counter+1), "
+        "stop <=> early_stopping /\\ counter == patience, generators advanced once; counter invariant and stop lemma by z3.",
+   technique="contract-based deductive verification: VCs from the jaxprs of the captured solve closures and of the real "
+             "ValidationLoss.__call__ + z3 lemma over the contracts",
+   design_ref="DESIGN.md §5 C19", note=B_NOTE + " i and call_every enumerated (every i < n_iter, call_every 1..3)."),
 }
 PENDING_REASON = "check not built yet (framework under construction); will be claimed once its contracts verify"
 NA = {}
